@@ -133,6 +133,18 @@ protected:
 	void start() override
 	{
 		vsess::SessHarness::start();
+		if (_p.pm == pm_pipeline && _ss)
+		{
+			// Wait until the reader thread sits in its first read.  Otherwise a session that is stopped right after
+			// START can hang for good: Session::stop sets the shutdown flag first; a reader thread that has not yet
+			// evaluated its loop condition then leaves at once and clears _started; FIXReader::stop() sees !_started
+			// and neither queues the empty-string sentinel nor stops the callback thread, which spins in
+			// _msg_queue.pop() for ever while ~FIXReader joins it (observed under load: harness stalled in
+			// pthread_join <- ~_f8_threadcore <- ~FIXReader; reported as a finding of its own).
+			const int64_t t0(vclock_real_ns());
+			while (reader_started() && !_impl->wait_idle(200))
+				if (vclock_real_ns() - t0 > stall_ns()) { _log.add("NOTQUIET"); break; }
+		}
 		if (_p.pm == pm_pipeline && _ss && _p.role == 'I')
 		{
 			// the Logon travels through the writer thread: fresh persister, so it carries
